@@ -120,7 +120,7 @@ def gen(ctx, rng):
         # a nodata attribute on the array that differs from the argument: the argument is what marks the missing cells
         a["attr_nodata"] = [-9999, None, 0, None][k % 4]
         if k % 2:
-            a["p"] = 0.85
+            a["p"] = [0.85, 0.5][(k // 2) % 2]          # 0.5 is an envelope like any other (every weight halved: the curve for 2 lambda)
         if k >= 2:
             # grids on and off the one-decimal lattice (steps 0.5, 0.25, 0.05; an offset grid; a linspace)
             a["srange"] = [[float(v) for v in np.arange(-1.85, 2.0, 0.3)], [float(v) for v in np.arange(-0.975, 2.1, 0.25)],
